@@ -1741,10 +1741,10 @@ def r6_placeholder_map(ctx, rid):
 
 
 RULES = [
-    ("C12-R1", r1_index_provenance, 1),
-    ("C12-R2", r2_layout_loops, 1),
-    ("C12-R3", r3_resolved_before_print, 1),
-    ("C12-R4", r4_sparse_confined, 1),
-    ("C12-R5", r5_index_base, 1),
-    ("C12-R6", r6_placeholder_map, 1),
+    ("C12-R1", r1_index_provenance, 20),     # 8 row/column stores, 2 emitters, 1 hand-over, 2 Fortran lines, 5 text indices, 2 hooks
+    ("C12-R2", r2_layout_loops, 6),          # 3 loops x (extent) + 2 sibling comparisons + per-DE lists
+    ("C12-R3", r3_resolved_before_print, 7),  # _expr_to_jac_str + 4 stores + 2 emitters
+    ("C12-R4", r4_sparse_confined, 14),      # 11 entry computations/emitters + 2 guards + flow of guarded values
+    ("C12-R5", r5_index_base, 9),            # 2 emitters + 2 Fortran lines + 5 text indices
+    ("C12-R6", r6_placeholder_map, 2),       # 2 _expr_to_jac_str call sites
 ]
